@@ -14,7 +14,9 @@ func H_C08_Step() {
 	e.w.mayFail = true
 	e.w.maxFail = 1
 	e.symPre(1)
-	kind := zzvrt.Choice("event", evtCount)
+	// peer-driven events only: a frame, a timer expiry, a transport error, the initial Run
+	kinds := []int{evtMsg, evtTimeout, evtConnErr, evtRun}
+	kind := kinds[zzvrt.Choice("event", len(kinds))]
 	e.doEvent(kind)
 	// closures spawned by the event (delayed close, abort-done close)
 	zzvrt.RunSpawned("CloseConnection$1")
@@ -27,8 +29,15 @@ func H_C08_ShortFrames() {
 	e := newEnv(symRole(), "")
 	e.info.free = true
 	e.symPre(0)
-	m := zzvrt.Bytes("msg")
-	zzvrt.Assume(len(m) < 2)
+	var m []byte
+	switch zzvrt.Choice("short.len", 3) {
+	case 0:
+		m = nil
+	case 1:
+		m = []byte{}
+	case 2:
+		m = []byte{zzvrt.Byte("short.b0")}
+	}
 	e.c.HandleIncomingWebsocketMessage(m)
 	zzvrt.Cover("c08.short.end")
 }
